@@ -133,6 +133,66 @@ def other_volume(world, rng, nodes, v, mt):
     return world
 
 
+def stat_fault_task(task):
+    """two volumes: the first with a genuine sticky .Trash/$uid, the second with a NON-sticky .Trash and a populated $uid
+    behind it; every probe the command makes of the second volume's .Trash fails in turn (EIO, or ENOENT - the directory is
+    being swapped under the command's feet).  Whatever the command does about the error (it dies, on this tree), nothing
+    stored behind the directory it could not judge is shown or removed - the verdict on the previous volume does not carry
+    over.  Judged on the real run alone (the model has no failing probes in the readers)."""
+    from ..model import W, cmd_argv, snap_to_state
+    from ..runner import jsonable, task_rng
+    from ..sandbox import MODEL_ROOT as R, run_world
+    rng = task_rng("C08stat", task["seed"], task["i"])
+    w = W()
+    home = w.dir(R + b"/home/u")
+    va, vb = R + b"/va", R + b"/vb"
+    w.mount(va)
+    w.mount(vb)
+    uid = 1000
+    w.dir(va + b"/.Trash", 0o1777)
+    w.dir(vb + b"/.Trash", rng.choice([0o777, 0o755]))
+    for v, nm in ((va, b"fine"), (vb, b"c08good")):
+        u = v + b"/.Trash/%d" % uid
+        w.dir(u, 0o700)
+        w.dir(u + b"/files", 0o700)
+        w.dir(u + b"/info", 0o700)
+        w.file(u + b"/info/" + nm + b".trashinfo", b"[Trash Info]\nPath=stuff/" + nm + b"\nDeletionDate=2000-01-01T00:00:00\n", 0o600)
+        w.file(u + b"/files/" + nm, b"payload " + nm)
+    w.file(vb + b"/.Trash/%d/files/orphan" % uid, b"no info")
+    cmd = ["list", "empty", "rm"][task["i"] % 3]
+    env = {"HOME": home}
+    opts, args = {}, []
+    if cmd == "empty":
+        env["TRASH_DATE"] = b"2024-03-02T12:00:00"
+        opts = {"now": [2024, 3, 2, 12, 0, 0]}
+    if cmd == "rm":
+        args = [b"*"]
+    if task["i"] % 2:
+        env["TRASH_VOLUMES"] = va + b":" + vb
+    world = w.world(env=env, uid=uid, cwd=R, cmd=cmd, opts=opts, args=args, stdin=None,
+                    meta={"entries": [], "tdirs": [], "profile": "stat-fault", "payload_kinds": ["file"], "sentinels": []})
+    world["argv"] = cmd_argv(world)
+    probe = run_world(world, {"log_reads": True})
+    target = (vb + b"/.Trash").hex()
+    idx = [k for k, (kind, path) in enumerate(probe.get("read_log", [])) if path == target]
+    bad, runs = [], 0
+    guarded = vb + b"/.Trash/"
+    for k in idx:
+        for e in ("EIO", "ENOENT"):
+            o = run_world(world, {"read_faults": [{"index": k, "errno": e}]})
+            runs += 1
+            before, after = snap_to_state(o["before"]), snap_to_state(o["after"])
+            gone = sorted(p for p in before if p.startswith(guarded) and (p not in after or after[p] != before[p]))
+            shown = (vb + b"/stuff/c08good") in o["stdout"]
+            if gone or shown:
+                bad.append({"failing_probe": k, "errno": e, "probe": probe["read_log"][k][0], "removed_or_changed": [repr(p) for p in gone[:6]],
+                            "listed": shown, "stdout": repr(o["stdout"][-400:]), "stderr": repr(o["stderr"][-400:]), "world": jsonable(world)})
+                break
+        if bad:
+            break
+    return {"runs": runs, "probes": len(idx), "bad": bad, "key": (cmd, task["i"] % 2, task["i"])}
+
+
 PUT_CFG = {"oracles": ("C08", "C07"), "violations": ("C08",), "profile": "single", "states": False}
 READ_CFG = {"cmds": ["list", "restore", "empty", "rm"], "oracles": ("C08", "c08", "effects"), "violations": ("C08",),
             "profile": "mixed", "states": False, "tweak": tweak}
@@ -140,7 +200,7 @@ LEVEL_NOTE = ("theorems: trash-put's security check rejects $topdir/.Trash/$uid 
               "not a directory or not sticky; the scanner of list/empty/rm and trash-restore never yield it then; "
               "trash-list reports the skipped directory")
 RULE = ("seeded worlds where $topdir/.Trash is absent / sticky dir / non-sticky dir / symlink to sticky or non-sticky dir / "
-        "regular file / a symlink to the genuine sticky .Trash of ANOTHER volume, with a populated .Trash/$uid behind it, for all five commands; oracle: the subtree of an insecure "
+        "regular file / a symlink to the genuine sticky .Trash of ANOTHER volume, with a populated .Trash/$uid behind it, for all five commands; two-volume worlds where every probe of the second volume's non-sticky .Trash fails in turn (EIO / ENOENT); oracle: the subtree of an insecure "
         ".Trash/$uid is byte-for-byte unchanged and none of its entries' paths is printed")
 
 
@@ -150,6 +210,13 @@ def run(tier, seed):
     n = 250 if tier == "quick" else 4000
     put_absorb(ck, "C08", run_tasks(put_eval, [{"pid": "C08", "seed": seed, "i": i, "cfg": PUT_CFG} for i in range(n)]), PUT_CFG, "Model.Put")
     read_absorb(ck, run_tasks(read_eval, tasks_for("C08", seed, READ_CFG, n)), READ_CFG)
+    for r in run_tasks(stat_fault_task, [{"seed": seed, "i": i} for i in range(6 if tier == "quick" else 36)]):
+        if "machinery" in r:
+            from ..lean import MachineryError
+            raise MachineryError(r["machinery"])
+        ck.case(("stat-fault", r["key"], r["runs"]), nontrivial=r["probes"] > 0, tags=["stat-fault:%s" % r["key"][0]])
+        for b in r["bad"]:
+            ck.violation("unjudged-directory-is-not-used", {"oracle": "C08-stat-fault", "cmd": r["key"][0]}, b)
     return ck.finish(info, LEVEL_NOTE, RULE)
 
 
